@@ -1,6 +1,16 @@
 #!/bin/bash
-# run every claimed check (quick tier) and print one summary line each
+# Run every claimed check (quick tier) exactly as MANIFEST.json registers it, rewriting evidence/,
+# print one summary line each, then validate the evidence records. Run before every commit:
+# evidence written by a run on a modified /repo (e.g. while trying a seeded change) must never
+# be committed — validate_evidence.py fails on such a record.
 cd /verif
+export VERIF_SEED=${VERIF_SEED:-1} VERIF_TIER=quick
+if [ -n "$(git -C /repo status --porcelain)" ]; then echo "runall: /repo has uncommitted changes — evidence would not describe the committed tree"; exit 2; fi
+rc=0
 for p in $(python3 -c "import json;print(' '.join(c['property_id'] for c in json.load(open('MANIFEST.json'))['checks']))") "$@"; do
-  ./bin/govc check $p --tier quick --no-evidence 2>&1 | grep "^VIOLATION\|^$p:" | cut -c1-260
+  rm -f evidence/$p.json
+  ./bin/govc check $p --tier quick > /tmp/runall-$p.log 2>&1 || rc=1
+  grep "^VIOLATION\|^KNOWN-FINDING\|^$p:" /tmp/runall-$p.log | cut -c1-260
 done
+python3-vt tools/validate_evidence.py || rc=1
+exit $rc
